@@ -52,6 +52,70 @@ COMPILER_LEVEL = {
 }
 
 
+def _lookup_helper_summary(ctx, h, type_field_rec):
+    """h is a static helper that looks an object up and checks its type against one
+    of its parameters: returns {'type_param': index, 'mismatch_ok', 'unknown_ok'} when
+    every path returning 0 established `<obj>->type == <param>`, else None"""
+    prog = ctx.prog
+    EINV = prog.macro_value('ERROR_INVALID_EXTERNAL_VARIABLE_TYPE')
+    EARG = prog.macro_value('ERROR_INVALID_ARGUMENT')
+    pn = [p['name'] for p in h.params]
+    succ_params = []
+    mismatch = {'seen': False, 'bad': False}
+    unknown = {'seen': False, 'bad': False}
+
+    def is_type(n):
+        n = cu.strip_casts(h, n)
+        return n is not None and n['k'] == 'member' and n['fld'] == 'type' and n.get('rec') in type_field_rec
+
+    def step(n, facts):
+        if n['k'] == 'ret':
+            v = cu.const_of(cu.strip_casts(h, h.kid(n, 0))) if n.get('c') else None
+            if v == 0:
+                succ_params.append(set(x[1] for x in facts if isinstance(x, tuple) and x[0] == 'teqp'))
+            if any(isinstance(x, tuple) and x[0] == 'tnep' for x in facts):
+                mismatch['seen'] = True
+                if v != EINV:
+                    mismatch['bad'] = True
+            if 'null' in facts:
+                unknown['seen'] = True
+                if v != EARG:
+                    unknown['bad'] = True
+            return None
+        return facts
+
+    def edge(b, term, cond, idx, succ, facts):
+        pol = paths.branch_polarity(h, term, idx)
+        if pol is None or cond is None:
+            return facts
+        c, pol = paths.normalise_cond(h, cond, pol)
+        if c is None or c['k'] != 'bin' or c['op'] not in ('==', '!='):
+            return facts
+        a, bb = h.kid(c, 0), h.kid(c, 1)
+        for x, y in ((a, bb), (bb, a)):
+            ys = cu.strip_casts(h, y)
+            if is_type(x) and ys is not None and ys['k'] == 'ref' and ys['name'] in pn:
+                eq = (c['op'] == '==') == pol
+                return frozenset(facts) | {('teqp' if eq else 'tnep', ys['name'])}
+            xs = cu.strip_casts(h, x)
+            if xs is not None and xs['k'] in ('ref', 'un') and cu.const_of(ys) == 0 and \
+                    ('*' in (xs.get('t') or '') or xs['k'] == 'un'):
+                if (c['op'] == '==') == pol:
+                    return frozenset(facts) | {'null'}
+        return facts
+    try:
+        paths.explore(h, set(), step, edge, max_states=256)
+    except paths.Budget:
+        return None
+    if not succ_params:
+        return None
+    common = set.intersection(*succ_params)
+    if len(common) != 1:
+        return None
+    return {'type_param': pn.index(list(common)[0]), 'mismatch_ok': mismatch['seen'] and not mismatch['bad'],
+            'unknown_ok': unknown['seen'] and not unknown['bad'], 'fn': h}
+
+
 def _type_guarded_store(ctx, f, is_store, allowed_vals, type_field_rec):
     """explore f: returns (stores seen, bad stores, wrong-type exits)"""
     prog = ctx.prog
@@ -60,6 +124,29 @@ def _type_guarded_store(ctx, f, is_store, allowed_vals, type_field_rec):
     stores = []
     wrong_exit = []
     seen_mismatch = [False]
+    helpers = {}
+    for c in f.calls():
+        h = f.tu.functions.get(c.get('callee', '')) if c.get('callee') else None
+        if h is not None and getattr(h, 'static', False):
+            sm = _lookup_helper_summary(ctx, h, type_field_rec)
+            if sm is not None:
+                a = f.call_args(c)
+                v = cu.const_of(cu.strip_casts(f, a[sm['type_param']])) if sm['type_param'] < len(a) else None
+                if v is not None:
+                    helpers[c['i']] = (sm, v)
+    _type_guarded_store.helpers = helpers
+
+    def helper_of(expr):
+        e = cu.strip_casts(f, expr)
+        if e is not None and e['k'] == 'call' and e['i'] in helpers:
+            return helpers[e['i']]
+        if e is not None and e['k'] == 'ref':
+            for d in f.all_nodes():
+                if d['k'] == 'decl' and d['name'] == e['name'] and d.get('c'):
+                    r0 = cu.strip_casts(f, f.kid(d, 0))
+                    if r0 is not None and r0['k'] == 'call' and r0['i'] in helpers:
+                        return helpers[r0['i']]
+        return None
 
     def step(n, facts):
         if is_store(n):
@@ -90,6 +177,12 @@ def _type_guarded_store(ctx, f, is_store, allowed_vals, type_field_rec):
         if c is None or c['k'] != 'bin' or c['op'] not in ('==', '!='):
             return facts
         a, bb = f.kid(c, 0), f.kid(c, 1)
+        # FAIL_ON_ERROR(helper(.., TYPE, &obj)): on the success edge the helper compared the type
+        hp = helper_of(a)
+        if hp is not None and cu.const_of(cu.strip_casts(f, bb)) == 0:
+            if (c['op'] == '==') == pol:
+                return frozenset(z for z in facts if z != 'tne') | {('teq', hp[1])}
+            return facts        # the helper's own error code is propagated
         for x, y in ((a, bb), (bb, a)):
             if is_type(x):
                 v = cu.const_of(cu.strip_casts(f, y))
@@ -168,12 +261,15 @@ def r20_1(ctx):
                if not bad and right_setter else
                'the scanner object is set without its type having been compared with %s%s' % (
                    '/'.join(types), '' if right_setter else ' (or through the wrong setter)'))
+        hs = list(getattr(_type_guarded_store, 'helpers', {}).values())
+        if hs and not mism:
+            mism = all(h_[0]['mismatch_ok'] for h_ in hs)
         ctx.ob('R20.1', '%s:mismatch-returns-type-error' % fname, mism and not wrong,
                f.loc(wrong[0]) if wrong else '%s:%s' % (f.file, f.line),
                'a type mismatch returns ERROR_INVALID_EXTERNAL_VARIABLE_TYPE' if mism and not wrong
                else 'the type-mismatch exit does not return ERROR_INVALID_EXTERNAL_VARIABLE_TYPE')
         # unknown identifier: obj == NULL -> ERROR_INVALID_ARGUMENT
-        ok = False
+        ok = bool(hs) and all(h_[0]['unknown_ok'] for h_ in hs)
         for n in f.all_nodes():
             if n['k'] == 'if':
                 c = f.kid(n, 0)
